@@ -28,13 +28,15 @@ func init() {
 }
 
 type c05Op struct {
-	Kind   string   // get | scan | set | del
+	Kind   string   // get | gwp | scan | set | del | mark
 	Key    string   // get/set/del
 	Val    string   // set
 	Seek   string   // scan
 	Desc   bool     // scan
 	IncS   bool     // scan: inclusive seek
 	Max    int      // scan: entries requested
+	Off    int      // scan: reader offset
+	Neq    string   // gwp: excluded key
 	Found  bool     // get result
 	Got    string   // get result value
 	Keys   []string // scan result keys
@@ -165,11 +167,40 @@ func c05Body(r *simcore.Run) {
 		if op.Desc {
 			sort.Sort(sort.Reverse(sort.StringSlice(keys)))
 		}
+		if op.Off > 0 {
+			keys = keys[min(op.Off, len(keys)):]
+		}
 		var vals []string
 		for _, k := range keys {
 			vals = append(vals, *merged[k])
 		}
 		return keys, vals
+	}
+	// GetWithPrefix(prefix, neq) as the index defines it on one state: the first entry (tombstones
+	// included) whose key is >= prefix and > neq; found if it carries the prefix and is not deleted
+	answerGwp := func(s state, overlay state, op *c05Op) (bool, string, string) {
+		merged := map[string]*string{}
+		for k, v := range s {
+			merged[k] = v
+		}
+		for k, v := range overlay {
+			merged[k] = v
+		}
+		var ks []string
+		for k := range merged {
+			ks = append(ks, k)
+		}
+		sort.Strings(ks)
+		for _, k := range ks {
+			if k < op.Key || (op.Neq != "" && k <= op.Neq) {
+				continue
+			}
+			if !strings.HasPrefix(k, op.Key) || merged[k] == nil {
+				return false, "", ""
+			}
+			return true, k, *merged[k]
+		}
+		return false, "", ""
 	}
 	// check returns "" if every read of tx equals the answer on base state s
 	check := func(tx *c05Tx, s state) string {
@@ -181,6 +212,11 @@ func c05Body(r *simcore.Run) {
 				f, v := answerGet(s, overlay, op.Key)
 				if f != op.Found || (f && v != op.Got) {
 					return fmt.Sprintf("op %d Get(%q) returned (found=%v,%q), serial execution gives (found=%v,%q)", i, op.Key, op.Found, op.Got, f, v)
+				}
+			case "gwp":
+				f, k, v := answerGwp(s, overlay, op)
+				if f != op.Found || (f && (k+"="+v) != op.Got) {
+					return fmt.Sprintf("op %d GetWithPrefix(%q, except %q) returned (found=%v,%q), serial execution gives (found=%v,%q)", i, op.Key, op.Neq, op.Found, op.Got, f, k+"="+v)
 				}
 			case "scan":
 				keys, vals := answerScan(s, overlay, op)
@@ -366,8 +402,32 @@ func (e *storeEnv) c05Program(task string, idx int) *c05Tx {
 			}
 			rec.Ops = append(rec.Ops, op)
 		case w < 6:
-			op := c05Op{Kind: "scan", Seek: k, Desc: r.Bool(), IncS: r.Bool(), Max: 1 + r.Intn(5)}
-			rd, err := tx.NewKeyReader(store.KeyReaderSpec{Prefix: []byte("k"), SeekKey: []byte(k), DescOrder: op.Desc, InclusiveSeek: op.IncS, Filters: []store.FilterFn{store.IgnoreDeleted}})
+			if r.Pct(20) {
+				// the first live key with a prefix, one key excluded
+				op := c05Op{Kind: "gwp", Key: []string{"k", k}[r.Intn(2)], Neq: c05Keys[r.Intn(len(c05Keys))]}
+				kk, ref, err := tx.GetWithPrefix(ctx, []byte(op.Key), []byte(op.Neq))
+				if err == nil && ref.KVMetadata() != nil && ref.KVMetadata().Deleted() {
+					// as for Get: the transaction's own tombstone comes back as an entry marked deleted
+					r.Probe("c05-get-returns-own-tombstone")
+					err = store.ErrKeyNotFound
+				}
+				if err == nil {
+					v, rerr := ref.Resolve()
+					if rerr != nil {
+						tx.Cancel()
+						r.Violation("read-value", "", "GetWithPrefix(%q) inside a transaction: value unreadable: %v", op.Key, rerr)
+					}
+					op.Found, op.Got = true, string(kk)+"="+string(v)
+				} else if !errors.Is(err, store.ErrKeyNotFound) {
+					tx.Cancel()
+					c05IdxViol(r, "tx-get", "GetWithPrefix(%q, %q) inside a transaction failed: %v", op.Key, op.Neq, err)
+				}
+				rec.Ops = append(rec.Ops, op)
+				r.Probe("c05-get-with-prefix")
+				continue
+			}
+			op := c05Op{Kind: "scan", Seek: k, Desc: r.Bool(), IncS: r.Bool(), Max: 1 + r.Intn(5), Off: r.Pick(0, 0, 1, 2)}
+			rd, err := tx.NewKeyReader(store.KeyReaderSpec{Prefix: []byte("k"), SeekKey: []byte(k), DescOrder: op.Desc, InclusiveSeek: op.IncS, Offset: uint64(op.Off), Filters: []store.FilterFn{store.IgnoreDeleted}})
 			if err != nil {
 				tx.Cancel()
 				c05IdxViol(r, "tx-reader", "NewKeyReader inside a transaction failed: %v", err)
@@ -392,6 +452,21 @@ func (e *storeEnv) c05Program(task string, idx int) *c05Tx {
 				op.Keys = append(op.Keys, string(kk))
 				op.Vals = append(op.Vals, string(v))
 				r.Yield("c05-scan-step")
+				if len(op.Keys) == 1 && !op.Ended && r.Pct(20) && len(rec.Ops) < 12 {
+					// the reader is rewound: it starts over with the same specification (offset included),
+					// as the reader of a read-only snapshot does; what it returns from here on is a scan of its own
+					if err := rd.Reset(); err != nil {
+						if errors.Is(err, store.ErrMVCCReadSetLimitExceeded) {
+							break
+						}
+						rd.Close()
+						tx.Cancel()
+						c05IdxViol(r, "tx-reader", "Reset of a reader inside a transaction failed: %v", err)
+					}
+					rec.Ops = append(rec.Ops, op)
+					op = c05Op{Kind: "scan", Seek: op.Seek, Desc: op.Desc, IncS: op.IncS, Max: op.Max, Off: op.Off}
+					r.Probe("c05-reader-reset")
+				}
 			}
 			rd.Close()
 			rec.Ops = append(rec.Ops, op)
